@@ -44,6 +44,11 @@ def gen_cases(ctx, langs, n):
         nl = rng.randint(0, 8)
         L = [rand_line(rng, sy).replace("\r", "").replace("\n", "") for _ in range(nl)]
         i = rng.randint(0, nl)
+        if L and rng.random() < 0.1:
+            # a first line that interpreters treat specially, with the insertion in front of it: the class of a
+            # line must not depend on its line number
+            L[0] = rng.choice(["#!/usr/bin/env run", "#!/bin/sh", "#![allow(x)]", "<?xml version=1?>", "%!PS", "@echo off"])
+            i = rng.choice([0, 0, i])
         cases.append({"sy": sy, "L": L, "i": i, "nl": neutral_line(rng, sy), "tag": "generated"})
     return cases
 
